@@ -435,6 +435,12 @@ func runSet(out *sink, p pset, sz sizes, r *rand.Rand) {
 		if q < nfull {
 			md = mode
 		}
+		if md == "rv" && q == 0 && !p.Fast && !serr && !pan { // quick, s sets: one XMSS layer (and SIG_FORS for n = 16) recomputed exactly
+			if p.N == 16 {
+				emitSign(out, p, "internal", kp.sk, kp.pk, msg, ctx, sig, true, same, serr, pan, "piece", 0, "NO_PREFIX", "00000000")
+			}
+			emitSign(out, p, "internal", kp.sk, kp.pk, msg, ctx, sig, true, same, serr, pan, "piece", 1+r.Intn(p.D), "NO_PREFIX", "00000000")
+		}
 		if md == "piece" && !serr && !pan {
 			for piece := 0; piece <= p.D; piece++ {
 				emitSign(out, p, "internal", kp.sk, kp.pk, msg, ctx, sig, true, same, serr, pan, "piece", piece, "NO_PREFIX", "00000000")
@@ -610,14 +616,24 @@ func digestEvents(out *sink, p pset, kp keypair, r *rand.Rand) {
 		}
 		cases = append(cases, dcase{composeDigest(p, f, r.Uint64(), r.Intn(leafMax+1), n%2 == 0), fmt.Sprintf("fors=%d in every tree", u)})
 	}
+	fullA, fullB := r.Intn(len(leaves)), len(leaves)-1 // quick, f sets: two leaf cases are recomputed in full
 	for n, c := range cases {
 		rr := vt.Bytes(r, p.N)
 		var sig []byte
 		var err error
 		pan, _ := vt.Try(func() { sig, err = verifhooks.SLHSignDigest(p.Name, clone(kp.sk), clone(c.dg), clone(rr)) })
-		full := p.Fast && vt.Thorough() && n < 2
+		// how exactly the reference compares: "full" (whole signature recomputed), "fors" (R || SIG_FORS recomputed, rest cheap parts), "cheap"
+		mode := "cheap"
+		if p.Fast {
+			mode = "fors"
+			if vt.Thorough() || n == fullA || n == fullB {
+				mode = "full"
+			}
+		} else if strings.HasPrefix(c.what, "fors=") && (vt.Thorough() || p.N == 16) && (n == len(cases)-1 || n == len(cases)-len(forsVals)) {
+			mode = "fors" // all FORS indices 0 / maximal
+		}
 		out.Emit(vt.Ev{"ev": "sign_digest", "ps": p.Name, "sk": vt.Hex(kp.sk), "digest": vt.Hex(c.dg), "r": vt.Hex(rr), "sig": vt.Hex(sig),
-			"err": err != nil, "panic": pan, "full": full, "what": c.what})
+			"err": err != nil, "panic": pan, "mode": mode, "what": c.what})
 		if err != nil || pan {
 			continue
 		}
@@ -1040,7 +1056,7 @@ func reexec(out *sink, e map[string]any) {
 			sig, err = verifhooks.SLHSignDigest(p.Name, vt.Unhex(str(e, "sk")), vt.Unhex(str(e, "digest")), vt.Unhex(str(e, "r")))
 		})
 		out.Emit(vt.Ev{"ev": "sign_digest", "ps": p.Name, "sk": str(e, "sk"), "digest": str(e, "digest"), "r": str(e, "r"), "sig": vt.Hex(sig),
-			"err": err != nil, "panic": pan, "full": boolean(e, "full"), "what": str(e, "what")})
+			"err": err != nil, "panic": pan, "mode": str(e, "mode"), "what": str(e, "what")})
 	case "verify_digest":
 		p := findSet(str(e, "ps"))
 		var v verdict
